@@ -1,16 +1,19 @@
 #!/bin/bash
-# seedtriage.sh <seed dir with patch.diff demo.sh> : confirm a seeded change in a scratch worktree of
-# /repo HEAD (tests + demo, clean and patched) and run every quick check against the patched worktree.
-# Nothing is applied to /repo itself. Prints CONFIRM and RESULT lines.
+# seedtriage.sh <seed dir with patch.diff demo.sh> [all] : confirm a seeded change in a scratch worktree of
+# /repo HEAD (tests + demo, clean and patched) and run the quick checks against the patched worktree:
+# first the check of the property the change was seeded for; the other seventeen only if that one
+# stays green (or when "all" is given).  Nothing is applied to /repo itself. Prints CONFIRM and RESULT lines.
 set -u
 D="$(cd "$1" && pwd)"
+ALL="${2:-}"
+OWN=$(basename "$D" | cut -d- -f1)
 export GOFLAGS=-mod=mod GOPROXY=off GOSUMDB=off GOTOOLCHAIN=local CGO_ENABLED=0
 SV=$(mktemp -d /tmp/sv.XXXXXX)
 git -C /repo worktree add -q --detach $SV/wt HEAD || exit 9
 trap 'git -C /repo worktree remove --force $SV/wt >/dev/null 2>&1; rm -rf $SV' EXIT
 demo() {
   rm -rf $SV/seed; cp -r "$D" $SV/seed
-  sed -i "s#/tmp/seed/C[0-9]*/wt#$SV/wt#g" $SV/seed/demo.sh; chmod +x $SV/seed/demo.sh
+  sed -i "s#/tmp/seed/C[0-9]*/wt#$SV/wt#g; s#/tmp/seed/C[0-9]*/tmp#$SV/dtmp#g" $SV/seed/demo.sh; chmod +x $SV/seed/demo.sh; mkdir -p $SV/dtmp
   (cd $SV/seed && timeout 300 bash ./demo.sh $SV/wt >$SV/demo.out 2>&1); echo $?
 }
 clean_demo=$(demo)
@@ -22,9 +25,16 @@ patched_demo=$(demo)
 echo "CONFIRM clean_demo_exit=$clean_demo build=$build tests_ok_pkgs=$tests patched_demo_exit=$patched_demo"
 mkdir -p $SV/verif; cp -r /verif/ledger /verif/known_findings.txt $SV/verif/
 cd /verif
-echo C01 C02 C03 C04 C05 C06 C07 C08 C09 C10 C11 C12 C13 C14 C16 C17 C18 C19 | tr ' ' '\n' | xargs -P 3 -I{} sh -c "bin/govc check -prop {} -tier quick -repo $SV/wt -verif $SV/verif > $SV/chk_{}.txt 2>&1"
+PROPS="C01 C02 C03 C04 C05 C06 C07 C08 C09 C10 C11 C12 C13 C14 C16 C17 C18 C19"
+bin/govc check -prop $OWN -tier quick -repo $SV/wt -verif $SV/verif > $SV/chk_$OWN.txt 2>&1
+if [ -n "$ALL" ] || ! grep -q "^VIOLATION" $SV/chk_$OWN.txt; then
+  echo $PROPS | tr ' ' '\n' | grep -v "^$OWN\$" | xargs -P 3 -I{} sh -c "bin/govc check -prop {} -tier quick -repo $SV/wt -verif $SV/verif > $SV/chk_{}.txt 2>&1"
+else
+  echo "NOTE own-property check is red; the other checks were not run"
+fi
 caught=""
-for p in C01 C02 C03 C04 C05 C06 C07 C08 C09 C10 C11 C12 C13 C14 C16 C17 C18 C19; do
+for p in $PROPS; do
+  [ -f $SV/chk_$p.txt ] || continue
   if grep -q "^VIOLATION" $SV/chk_$p.txt; then caught="$caught $p"; grep "^VIOLATION" $SV/chk_$p.txt | head -2 | sed 's/replay=[^ ]* //' | cut -c1-230; fi
   grep "^ERROR" $SV/chk_$p.txt | head -1
 done
